@@ -273,6 +273,10 @@ func (p *PX) term(v ssa.Value, fr *pxFrame, st *pxState) *Term {
 			if t := p.w.ctabTermOf(v, func(iv ssa.Value) *Term { return p.term(iv, fr, st) }); t != nil {
 				return t
 			}
+			// a cell of a local array used as a table (pxlocaltab.go)
+			if t := p.localTabLoad(x.X, fr, st); t != nil {
+				return t
+			}
 			// a load from a read-only package table: what the initialiser stored there (roinit.go)
 			if g, ok := x.X.(*ssa.Global); ok {
 				if t := p.roGlobalSlice(g, v.Type()); t != nil {
@@ -806,6 +810,7 @@ func (p *PX) instrs(fr *pxFrame, b *ssa.BasicBlock, from int, st *pxState, k pxC
 				}
 			}
 			p.byteStore(x, fr, st)
+			p.localTabStore(x, fr, st) // a cell of a local array used as a table (pxlocaltab.go)
 		case *ssa.MapUpdate:
 			// remembered for rules about tables kept in struct fields (numbering)
 			if ld, ok := x.Map.(*ssa.UnOp); ok {
